@@ -721,6 +721,10 @@ func (w *World) pairQuiet(ps *pairState) bool {
 	if ps.idle {
 		return true
 	}
+	// configured start beyond the head: the task can only wait
+	if ps.curNum < 0 && ps.ref.Start > 0 && int64(ps.ref.Start)-1 > int64(ps.src.node.HeadNum()) && ps.calls >= 3 && !ps.inCall {
+		return true
+	}
 	need := len(w.plan.Decls) + 2
 	if ps.inCall || ps.quietRun < need {
 		return false
